@@ -77,6 +77,8 @@ pub struct Opts {
     pub gates_as_control: bool,
     /// use the alias-preserving object graph as state key (K_shape)
     pub shape_key: bool,
+    /// answers tried for a mutator gate besides the default 0.0 (empty = just 2.0, which declines at every rate in [0,1])
+    pub gate_alphabet: Vec<f64>,
 }
 
 impl Default for Opts {
@@ -92,6 +94,7 @@ impl Default for Opts {
             xval_cap: 0,
             gates_as_control: true,
             shape_key: false,
+            gate_alphabet: vec![],
         }
     }
 }
@@ -295,7 +298,15 @@ impl<'a> Explorer<'a> {
         let findings = (self.monitor)(&ctx);
         let violated = !findings.is_empty();
         for f in findings {
-            exp.found.push(Found { finding: f, cfg: cfg.clone(), script: script.to_vec() });
+            // keep one (the shortest) witness per finding class and expansion
+            match exp.found.iter_mut().find(|x| x.finding.class == f.class && x.finding.prop == f.prop) {
+                Some(old) => {
+                    if (script.len(), script) < (old.script.len(), old.script.as_slice()) {
+                        *old = Found { finding: f, cfg: cfg.clone(), script: script.to_vec() };
+                    }
+                }
+                None => exp.found.push(Found { finding: f, cfg: cfg.clone(), script: script.to_vec() }),
+            }
         }
         if let Some(b) = res.bytes() {
             if self.opts.xval_cap > 0 && !self.xval_full.load(std::sync::atomic::Ordering::Relaxed) {
@@ -389,7 +400,13 @@ impl<'a> Explorer<'a> {
                 continue;
             }
             let is_gate = self.opts.gates_as_control && d.in_mutation && d.method == "gen_f64";
-            let alts = if is_gate { script::gate_alternatives() } else { script::alternatives(d) };
+            let alts = if is_gate && self.opts.gate_alphabet.is_empty() {
+                script::gate_alternatives()
+            } else if is_gate {
+                self.opts.gate_alphabet.iter().map(|g| (g.to_bits().to_le_bytes().to_vec(), Some(g.to_bits()))).collect()
+            } else {
+                script::alternatives(d)
+            };
             if !is_gate && budget == 0 {
                 continue;
             }
